@@ -323,6 +323,23 @@ def scale_work(item):
                     if got != src or pre(nodes_[0], []) != src:
                         acc.add_problem(problem("binding_mismatch", {"config": {"k": 4}, "history": history, "op": ["copy", 0], "scale": "copy"},
                                                 expected=src, observed=got, op="copy"))
+                    # ... and so does the tree saved to JSON and loaded again (loading re-attaches every node: a child's own
+                    # bindings win over its parent's there as well)
+                    # (only for trees in which every child has its parent's prefixes - what loading can reproduce; the history
+                    #  is therefore cut before the removal on the child)
+                    hist_inv = history[:history.index(["remove", 1, "late"])]
+                    try:
+                        nodes_i, _m = replay_history(4, hist_inv)
+                        src_i = pre(nodes_i[0], [])
+                        from metapype.model import metapype_io as _io
+                        got = pre(_io.from_json(_io.to_json(nodes_i[0])), [])
+                    except PrefixFailed:
+                        continue
+                    except Exception as e:  # noqa
+                        got = repr(e)
+                    if got != src_i:
+                        acc.add_problem(problem("binding_mismatch", {"config": {"k": 4}, "history": hist_inv, "op": ["json-reload", 0], "scale": "copy"},
+                                                expected=src_i, observed=got, op="json-reload"))
     elif kind == "failed-attach":
         # an attach that fails (the index is not a number) is not an attach: no binding, no parent link, no child list changes
         for decl_p in ([], [["p", "u1"]], [["p", "u1"], ["q", "u2"]]):
